@@ -326,6 +326,10 @@ def replay(prop, mod, path):
         fl, errors = C.coq_run_cases(mod.IMPORTS, mod.CASE_TYPE, mod.RUN, mod.EQB, [lit], scratch, prop) if lit else ([], [])
     print("implementation output:", json.dumps(o, default=str)[:2000])
     print("oracle:", v, " model disagrees:", bool(fl), errors[:1])
+    k = known_match(C.load_known_findings(), prop, c, v) if v else None
+    if k and not fl and not errors:
+        print("KNOWN-FINDING: property=%s %s" % (prop, k["what"]))
+        return 0
     if v or fl or errors:
         print("VIOLATION property=%s replay=%s%s" % (prop, path, "" if v else " no-failing-input-found"))
         return 1
